@@ -55,6 +55,8 @@ REWRITE_RENAMES = [
     # IS the original call; contracts discharged by the complete Kani harness k_ff_limb_helpers
     ("N10", [":", ":", "ff", ":", ":", "derive", ":", ":", "mac"], ["ff_mac"]),
     ("N10", [":", ":", "ff", ":", ":", "derive", ":", ":", "adc"], ["ff_adc"]),
+    ("N10", [":", ":", "ff", ":", ":", "derive", ":", ":", "byteorder", ":", ":", "LittleEndian", ":", ":", "write_u64_into"],
+     ["ff_write_u64_into"]),
 ]
 
 class FnRecord:
@@ -681,6 +683,8 @@ def _invert(toks, emitter):
             out.extend(["&", t[:-5]])
         elif t in ("ff_mac", "ff_adc"):
             out.extend([":", ":", "ff", ":", ":", "derive", ":", ":", t[3:]])
+        elif t == "ff_write_u64_into":
+            out.extend([":", ":", "ff", ":", ":", "derive", ":", ":", "byteorder", ":", ":", "LittleEndian", ":", ":", "write_u64_into"])
         elif t in ("v_fp_zero", "v_fp_one") and toks[i + 1:i + 3] == ["(", ")"]:
             out.extend(["Fp", ":", ":", "ZERO" if t == "v_fp_zero" else "ONE"]); i += 3; continue
         elif t == "vpanic" and toks[i + 1:i + 3] == ["(", ")"]:
